@@ -315,9 +315,10 @@ def _strategies():
         nsess = sum(len(sessions) for sessions in actors)
         mode = draw(st.sampled_from(['access', 'access', 'line']))
         if op_level:
+            # foreign-object cases always run in access mode; what matters is WHEN the publishing session is alive /
+            # over, i.e. pre-emptions near operation boundaries (two ranges of positions: tight and wide)
             bound = 2 * nops + 3 * nsess + 6 if mode == 'access' else 12 * nops
             mode = 'access'
-            # mostly boundaries: the interesting choice is WHEN the other session is alive / over
         else:
             bound = (9 * nops + 3 * nsess + 4) if mode == 'access' else (90 * nops + 10)
         npre = draw(st.sampled_from([0, 1, 1, 2, 2, 2, 3, 3]))
